@@ -46,6 +46,18 @@ def main() -> int:
         if ok:
             ctx.audit_res = common.audit(mod.LEAN_MODULE, list(mod.THEOREMS))
         ctx.forbidden = common.forbidden_scan()
+        if ok and tier == "thorough":
+            # independent re-check of the compiled proofs by the toolchain's external checker
+            import subprocess
+            mods = list(getattr(mod, "CHECKER_MODULES", [mod.LEAN_MODULE]))
+            try:
+                p = subprocess.run(["lake", "env", "leanchecker", *mods], cwd=common.LEAN, stdout=subprocess.PIPE,
+                                   stderr=subprocess.STDOUT, text=True, timeout=1500)
+                ctx.extra["leanchecker"] = {"modules": mods, "exit": p.returncode}
+                if p.returncode != 0:
+                    ctx.forbidden.append("leanchecker rejected %s: %s" % (mods, p.stdout[-500:]))
+            except subprocess.TimeoutExpired:
+                ctx.extra["leanchecker"] = {"modules": mods, "exit": "timeout"}
     else:
         ctx.audit_res = {t: {"ok": True, "axioms": [], "msg": "skipped"} for t in mod.THEOREMS}
     ctx.model_available = ok and os.path.exists(common.DRIVER)
